@@ -165,6 +165,9 @@ def generic_rules(body):
         op = h.end() - 1
         cl = match_brace(m, op)
         edits.append((h.start(), cl + 1, 'bump_alloc_layout(&%s, %s)' % (re.sub(r'\s+', '', h.group(1)), body[op + 1:cl].strip()), 'R8'))
+    # R6  X.binary_search_by_key(&key, |e| e.key()) => X.bsearch_by_key_v(key)     (trait shim, prelude/pagenode_types.rs)
+    for h in re.finditer(r'\.\s*binary_search_by_key\s*\(\s*&\s*([\w.()]+?)\s*,\s*\|\s*(\w+)\s*\|\s*\2\s*\.\s*key\(\)\s*\)', m):
+        edits.append((h.start(), h.end(), '.bsearch_by_key_v(%s)' % h.group(1), 'R6'))
     # R10  `d.key() < *s` (both sides &[u8]) => `*d.key() < **s`: std's PartialOrd for references forwards to the referents
     for h in re.finditer(r'\b([A-Za-z_]\w*)\.key\(\)\s*(<=|>=|<|>)\s*\*([A-Za-z_]\w*)\b', m):
         edits.append((h.start(), h.end(), '*%s.key() %s **%s' % (h.group(1), h.group(2), h.group(3)), 'R10'))
